@@ -367,9 +367,15 @@ def _replay_cmd(mod, path):
     known = load_known(mod.ID)
     shown = 0
     for v in viols:
+        e = match_known(known, v)
+        if e is not None:
+            print("KNOWN-FINDING: property=%s %s — clause=%s %s" % (mod.ID, e["id"], v["clause"], v["detail"][:300]))
+            continue
         same = want is None or (v["clause"] == want.get("clause"))
-        print("%s clause=%s %s" % ("REPRODUCED" if same else "OTHER", v["clause"], v["detail"][:400]))
-        shown += 1 if same else 0
+        # any violation that no open known finding covers counts: a replay that now fails under another clause is
+        # still a violation of the property, not a harness problem
+        print("%s clause=%s %s" % ("REPRODUCED" if same else "REPRODUCED(other clause)", v["clause"], v["detail"][:400]))
+        shown += 1
     if shown:
         print("VIOLATION property=%s replay=%s" % (mod.ID, os.path.abspath(path)))
         return 1
